@@ -879,11 +879,17 @@ pub fn gen_point(t: &mut Tape, g: &G, prof: &PointProfile) -> (Vec<f64>, Vec<&'s
     while i < dim {
         let a = if t.chance(prof.bm_extreme) {
             classes.push("bm:extreme");
-            *t.pick(&[1e-300, ONE_M, TWO_M53, 1e-17, 0.5, 5e-324, 1e-310, 2.2250738585072014e-308, 1.0 - 2.0 * TWO_M53, 1e-320])
+            if t.chance(0.35) {
+                // every distance from either end of (0,1) on a log scale: 10^-u and 1 - 10^-u, u in [0.3, 16]
+                let d = 10f64.powf(-t.uniform(0.3, 16.0));
+                if t.bool() { d } else { 1.0 - d }
+            } else {
+                *t.pick(&[1e-300, ONE_M, TWO_M53, 1e-17, 0.5, 5e-324, 1e-310, 2.2250738585072014e-308, 1.0 - 2.0 * TWO_M53, 1e-320])
+            }
         } else {
             t.unit().max(TWO_M53)
         };
-        let b = if t.chance(prof.bm_extreme) { *t.pick(&[0.0, 0.25, 0.5, 0.75, ONE_M, 0.125]) } else { t.unit() };
+        let b = if t.chance(prof.bm_extreme) { if t.chance(0.3) { (*t.pick(&[0.0, 0.25, 0.5, 0.75, 1.0]) + (if t.bool() { 1.0 } else { -1.0 }) * 10f64.powf(-t.uniform(1.0, 17.0))).clamp(0.0, ONE_M) } else { *t.pick(&[0.0, 0.25, 0.5, 0.75, ONE_M, 0.125]) } } else { t.unit() };
         x[i] = a;
         if i + 1 < dim {
             x[i + 1] = b;
